@@ -508,6 +508,15 @@ func (p *parser) typeExpr() (TypeExpr, error) {
 	if t.kind != "id" {
 		return TypeExpr{}, fmt.Errorf("%s: expected type, found %q", p.pos, t.text)
 	}
+	if t.text == "struct" {
+		if err := p.expect("{"); err != nil {
+			return TypeExpr{}, err
+		}
+		if err := p.expect("}"); err != nil {
+			return TypeExpr{}, err
+		}
+		return TypeExpr{Kind: "name", Name: "struct{}"}, nil
+	}
 	if t.text == "map" {
 		if err := p.expect("["); err != nil {
 			return TypeExpr{}, err
@@ -871,7 +880,13 @@ func parseClause(kind, rest string, pos Position) (*Clause, error) {
 		// a leading [..] is a label only if it looks like one: first field is an identifier-ish word
 		if len(fs) > 0 && isLabel(fs[0]) {
 			c.Label = fs[0]
-			c.Props = fs[1:]
+			for _, f := range fs[1:] {
+				if strings.HasPrefix(f, "@") {
+					c.Group = f[1:]
+				} else {
+					c.Props = append(c.Props, f)
+				}
+			}
 			rest = rest[j+1:]
 		}
 	}
@@ -893,7 +908,7 @@ func parseClause(kind, rest string, pos Position) (*Clause, error) {
 
 func isLabel(s string) bool {
 	for _, r := range s {
-		if !(unicode.IsLetter(r) || unicode.IsDigit(r) || r == '_' || r == '-' || r == '.') {
+		if !(unicode.IsLetter(r) || unicode.IsDigit(r) || r == '_' || r == '-' || r == '.' || r == '@') {
 			return false
 		}
 	}
